@@ -77,6 +77,8 @@ type Machine struct {
 	TolerantInit     func(pkgPath string) bool
 	Stubs            map[string]*ssa.Function // full function name -> replacement (per-harness stubs of /repo functions)
 	NoopPkgs         func(pkgPath string) bool
+	DecideProfile map[string]int64
+	curFn        string
 	jsonAppendString *ssa.Function
 	witnessed        map[string]bool
 }
@@ -347,6 +349,11 @@ func (m *Machine) callSSA(caller *frame, pos token.Pos, fn *ssa.Function, args [
 		}
 	}
 	m.FuncHits[name]++
+	if m.DecideProfile != nil {
+		prev := m.curFn
+		m.curFn = name
+		defer func() { m.curFn = prev }()
+	}
 	m.depth++
 	if m.depth > 5000 {
 		panic(abort{"bound", "call depth > 5000 in " + name})
